@@ -36,6 +36,18 @@ def blocks_of(kind, atoms, mtxs):
         return [[("lock", m), ("ld", o), ("st", o), ("unlock", m)] for o in atoms for m in mtxs]
     if kind == "try":
         return [[("trylock", m), ("tunlock", m)] for m in mtxs]
+    if kind == "rdld":
+        return [[("read", "l"), ("ld", o), ("unlockr", "l")] for o in atoms]
+    if kind == "rdst":
+        return [[("read", "l"), ("st", o), ("unlockr", "l")] for o in atoms]
+    if kind == "wrst":
+        return [[("write", "l"), ("st", o), ("unlockw", "l")] for o in atoms]
+    if kind == "wrld":
+        return [[("write", "l"), ("ld", o), ("unlockw", "l")] for o in atoms]
+    if kind == "tryrd":
+        return [[("tryread", "l"), ("tunlockr", "l")]]
+    if kind == "trywr":
+        return [[("trywrite", "l"), ("tunlockw", "l")]]
     if kind == "yield":
         return [[("yield", "none")]]
     # stop_exploring regions hold stores only: a load inside a region returns loom's default candidate (no alternative is
@@ -140,6 +152,12 @@ def to_dsl(p, name):
                 th.append(I("trylock", o)); nreg += 1
             elif op == "tunlock":
                 th += [br(nreg, 1, 1), I("unlock", o)]
+            elif op in ("read", "write", "unlockr", "unlockw"):
+                th.append(I(op, o))
+            elif op in ("tryread", "trywrite"):
+                th.append(I(op, o)); nreg += 1
+            elif op in ("tunlockr", "tunlockw"):
+                th += [br(nreg, 1, 1), I("unlockr" if op == "tunlockr" else "unlockw", o)]
             elif op == "yield":
                 th.append(I("yield"))
             elif op in ("stopx", "explore", "skipb"):
@@ -270,7 +288,7 @@ def run(ctx, spaces, bounds, sample, rng, want=("C01", "C15")):
             if len(ref) >= 2:
                 nontriv += 1
             ub = real.get(None)
-            if "C01" in want and ub is not None and use_results:
+            if "C01" in want and ub is not None and use_results and inv:
                 if "deadlock" in ref:
                     if "deadlock" not in ub:
                         ctx.violation("missed-report", d, "deadlock", {"reference": "Dpor.tla RefOutcomes"})
@@ -279,7 +297,7 @@ def run(ctx, spaces, bounds, sample, rng, want=("C01", "C15")):
                         ctx.violation("missing-outcome", d, w, {"reference": "Dpor.tla RefOutcomes", "loom_outcomes": len(ub)})
                     # no "illegal outcome" direction here: loom's SeqCst loads and stores behave as acquire/release
                     # (README, C03), so loom may legally return more than the interleaving semantics; C03 owns soundness
-            if "C15" in want and ub is not None and "deadlock" not in ref:
+            if "C15" in want and ub is not None and "deadlock" not in ref and inv:
                 prev = None
                 for b in [x for x in bounds if x is not None]:
                     kb = real[b]
